@@ -238,6 +238,25 @@ def entry_size_ok(fn, prog, crate, tree, site_bb=None):
                 if (panics.same_tree(fn, needle, raw) or panics.strip_casts_all(needle) == t) and all((x[0] == 'int' and x[1] > 0) for x in walk(lst) if isinstance(x, tuple) and x and x[0] == 'int'):
                     if any(isinstance(x, tuple) and x and x[0] == 'array' for x in walk(lst)):
                         return True, 'a member of a literal list of layout sizes'
+    # ... or by a `matches!(size, A | B)` / `match size { A | B => .., _ => fail }`: a switch on the size itself whose edge to
+    # the site carries positive constants only (bool flags threaded first)
+    if site_bb is not None:
+        import normal
+        tf = normal.thread_flags(fn)
+        try:
+            fs = normal.facts(tf, site_bb)
+        except Exception:
+            fs = []
+        for r in fs:
+            if r[0] != 'switch':
+                continue
+            c0 = panics.strip_casts_all(tf.expand(r[1]))
+            if not (panics.same_tree(fn, r[1], tree) or c0 == t or c0 == panics.strip_casts_all(fn.expand(tree))):
+                continue
+            v = r[2]
+            vals = list(v[1:]) if isinstance(v, tuple) and v and v[0] == 'in' else [v] if isinstance(v, int) and not isinstance(v, bool) else None
+            if vals and all(isinstance(x, int) and x > 0 for x in vals):
+                return True, 'one of the positive constants %s (switch edge)' % vals
     return False, show(t)[:80]
 
 
